@@ -325,7 +325,8 @@ def check_process_send_queue(ctx):
     repo = ctx.repo
     func = repo.method("HsmsProtocol", "_process_send_queue", inherited=False)
     ctx.touch(func)
-    fn = func.node
+    fn = normal.normalised(ctx, func, comps=False, ifexp=False, aliases=False)
+    normal.append_loops_to_comprehensions(fn)
     q = func.qualname
     cfg = cfg_of(fn)
     parts = rules.find_partitions(fn)
